@@ -124,7 +124,7 @@ m = {
  "hooks": {"guard": "verif (Go build tag)",
            "enable": "checks copy /repo's working tree to a scratch directory and build there with `go build -tags verif`",
            "baseline_off_cmd": "VERIF_JSON=1 tools/baseline_off.sh",
-           "source_commits": ["206ba57"], "add_only": True},
+           "source_commits": ["206ba57", "15e803f"], "add_only": True},
  "engines": [
    {"name": "vcheck", "path": "tools/vcheck", "serves_properties": sorted(CHECKS), "kind_free_text": "python3 orchestrator: scratch build of /repo, TLC runs, Go replay drivers, evidence"},
    {"name": "TLA+ specifications", "path": "spec/", "serves_properties": sorted(CHECKS), "kind_free_text": "explicit TLA+ modules checked with TLC 1.8 (exhaustive, simulation, trace validation)"},
